@@ -10,7 +10,7 @@ REPO = os.environ.get("VERIF_REPO", "/repo")
 SPEC = os.path.join(ROOT, "spec")
 HARNESS = os.path.join(ROOT, "harness")
 BUILD = os.path.join(ROOT, ".build")
-WORK = os.path.join(ROOT, ".work")
+WORK = os.environ.get("VERIF_WORK") or os.path.join(ROOT, ".work")
 EVID = os.path.join(ROOT, "evidence")
 REPLAY = os.path.join(ROOT, "replay")
 TLA_JAR = "/opt/veriftools/tla/tla2tools.jar:/opt/veriftools/tla/CommunityModules-deps.jar"
